@@ -26,7 +26,7 @@ LEVEL_TEXT = ('Bounded stand-in (labelled bounded): limits and repeat counts tak
               'normal completion of run; `limited` is exactly ending reached).')
 LEVEL_NOTE = ('FRAGMENTS (T9): only the named statements of state.run / state.transition are verified, under a stated pre-state; the generator '
               'protocol between them, dfa_base.delegate and every parser graph are bounded-only. String/callable limits are resolved by the bounded tier.')
-TECHNIQUE = 'bounded: all library machines x limits/repeats on the real interpreter; deductive fragment contracts (pyvc, z3) on state.run / state.transition limit logic and automata.peeking'
+TECHNIQUE = 'bounded: all library machines x limits/repeats on the real interpreter; deductive fragment contracts (pyvc, z3) on state.run / state.transition limit logic, automata.peeking and automata.chaining (the `sent` count the limits are compared with)'
 TRUSTED = ['T9 fragment contracts: the rest of state.run / transition is unverified', 'reference encoder contracts/wire.py for the inputs']
 ASSUMPTIONS = ['a dfa is not its own sub-state']
 
@@ -90,7 +90,7 @@ def fragments():
 
 
 def contracts(repo):
-    return SC.peeking_specs() + fragments()
+    return SC.peeking_specs() + SC.chaining_specs() + fragments()
 
 
 # ------------------------------------------------------------------------------------------------ bounded tier
